@@ -11,9 +11,9 @@ InputsAll == {
   I("ip4", 443, "https", TRUE, "lit4"), I("ip4port", 8443, "https", TRUE, "lit4"), I("ip6", 443, "https", TRUE, "lit6"),
   I("localhost", 443, "https", TRUE, "loopback") }
 InputsCore == { i \in InputsAll : i.id \in {"host", "host8443", "foo123", "host80"} }
-HAll == {"absent", "nx", "servfail", "refused", "notauth", "aliasdot", "svcdot", "svct", "unsorted", "poisoned", "cnamed", "loop", "chain1", "chain2",
+HAll == {"absent", "nx", "servfail", "refused", "notauth", "aliasdot", "svcdot", "svct", "svcself", "unsorted", "poisoned", "cnamed", "loop", "chain1", "chain2",
          "chain3", "chain4", "chain6"}
-HSome == {"absent", "svct", "chain2"}
+HSome == {"absent", "svct", "svcself", "chain2"}
 AAll == {"none", "addr", "two", "cname", "foreign", "foreigncname", "cnamebroken", "nx", "servfail", "notauth"}
 ASome == {"addr", "foreign"}
 A6All == {"none", "addr", "foreigncname", "servfail"}
